@@ -19,6 +19,10 @@
 
 
 
+#include <limits>
+
+
+
 #include <cstring>
 
 
@@ -556,6 +560,11 @@ ElemNumber::getCountString(
             DoubleSupport::lessThan(theValue, 0.5) == true)
         {
             NumberToDOMString(theValue, theResult);
+        }
+        else if (theValue >= static_cast<double>(std::numeric_limits<CountType>::max()))
+        {
+            // Too large to be converted to an integer...
+            NumberToDOMString(DoubleSupport::round(theValue), theResult);
         }
         else
         {
